@@ -155,6 +155,8 @@ class Verifier(Interp):
             havoc_value(self, tgt)
         if c.trusted:
             self.assumptions.add("assumed-contract:" + c.key)
+        if c.ghost_entry is not None:
+            c.ghost_entry(self, old)  # definitions of the contract's ghost symbols over the ENTRY state (same hook as in the carrier's own proof)
         for exc, cond in c.raises.items():
             if cond is None:
                 continue
@@ -230,6 +232,8 @@ class Verifier(Interp):
                 self.covers.append(Oblig(f"{self.prop}/{fn_label}/cover/precondition-reachable", list(self.pc), z3.BoolVal(False), "cover", self.variant))
             self.top_old = snapshot(vars)
             self.entry_uids = _collect_uids(vars)
+            if c.ghost_entry is not None:
+                c.ghost_entry(self, self.top_old)
             if c.lemmas:
                 for lm in c.lemmas:
                     lm(self, fr)
